@@ -336,6 +336,8 @@ def stepA (st : StA) (ts : List String) : StA × String :=
     match ts with
     | "nch" :: _ | "gh" :: _ | "ipk" :: _ | "bck" :: _ => (st, "bad-op")
     | "ageo" :: _ | "tgeo" :: _ | "tinterp" :: _ | "asu" :: _ | "asn" :: _ => (st, "bad-op")
-    | _ => (st, (step st.base ts).2)
+    | _ =>
+      let r := step st.base ts
+      ({ st with base := r.1 }, r.2)
 
 end OmplModel.Driver.ConstrainedDrv
